@@ -43,6 +43,7 @@ FINDER_BOUNDS = {
     'find_query_semantics': '9 constraints over a 12-annotation store: every ordered pair as a conjunction, every pair as a disjunction, LIMIT 1-3; oracle: the single-constraint results',
     'find_data_search': '13 values of five types under two keys x 19 operators: DataValue::test vs the documented semantics; find_data by key (also one that does not exist) / value / both vs a full scan',
     'find_annotate_failures': '13 failing annotate() calls (missing / unresolvable / out-of-range / nested targets, bad data references, duplicate ids) on a small store; observable state compared before and after',
+    'find_include_cycle': '5 sets of store files that @include each other (pairs with and without a working directory, self-include, a cycle of three, a double include)',
     'find_load_untrusted': '43 malformed or hostile STAM JSON documents through AnnotationStore::from_json_str (no document sized to exhaust memory)',
     'find_index_walk': 'every range over a 9-character text, forward and backward, 11 known selections',
 }
